@@ -27,14 +27,17 @@ import (
 var wild = []byte{0}
 
 type Case struct {
-	Kind     string   `json:"kind"` // fidelity | insave | stop-recover | stop-save | overlap
-	Log      []int    `json:"log,omitempty"`
-	Saver    string   `json:"saver,omitempty"`    // s|c
-	Receiver string   `json:"receiver,omitempty"` // s|c
-	Prior    string   `json:"prior,omitempty"`    // fresh|other
-	Between  bool     `json:"between,omitempty"`
-	J        int      `json:"j,omitempty"`
-	Desc     []string `json:"desc,omitempty"`
+	Kind     string `json:"kind"` // fidelity | insave | stop-recover | stop-save | overlap
+	Log      []int  `json:"log,omitempty"`
+	Saver    string `json:"saver,omitempty"`    // s|c
+	Receiver string `json:"receiver,omitempty"` // s|c
+	Prior    string `json:"prior,omitempty"`    // fresh|other
+	Between  bool   `json:"between,omitempty"`
+	// BetweenFlush: the write between prepare and save is followed by a Sync (memtable flush), as
+	// dragonboat's periodic Sync of an on-disk state machine can land there
+	BetweenFlush bool     `json:"between_flush,omitempty"`
+	J            int      `json:"j,omitempty"`
+	Desc         []string `json:"desc,omitempty"`
 }
 
 type viol struct{ sig, detail string }
@@ -206,6 +209,11 @@ func RunFidelity(c Case) (vs []viol, outcome string) {
 			if _, err := saver.Update([]sm.Entry{extraWrite(want.applied + 10)}); err != nil {
 				vs = append(vs, viol{"write-between-prepare-and-save-failed", err.Error()})
 			}
+			if c.BetweenFlush {
+				if err := saver.Sync(); err != nil {
+					vs = append(vs, viol{"sync-between-prepare-and-save-failed", err.Error()})
+				}
+			}
 		}
 	}
 	var w io.Writer = &buf
@@ -235,6 +243,9 @@ func RunFidelity(c Case) (vs []viol, outcome string) {
 	tag := "fidelity"
 	if c.Between {
 		tag = "point-in-time/write-between-prepare-and-save"
+	}
+	if c.BetweenFlush {
+		tag = "point-in-time/write-and-flush-between-prepare-and-save"
 	}
 	if c.Kind == "insave" {
 		tag = "point-in-time/write-during-save"
@@ -479,7 +490,7 @@ func Run(r *evid.Run) {
 	if r.Thorough() {
 		depth = 3
 	}
-	r.Rule(fmt.Sprintf("(1) fidelity: every history of length 0..%d over the 16-entry C03 alphabet x saver format {snapshot,checkpoint} x receiver format x receiver prior state {fresh, other content at a higher index, the same after having saved a snapshot of its own in its own format} x {no write, a write between prepare and save}; plus a write applied from inside save after its j-th output write, every j; receiver must equal the saver at prepare time (content, applied, leader index, hash), stay usable and reopen to the same. (2) stop signal at the j-th input read of recover / j-th output write of save, every j: receiver entirely old or entirely new, usable, same after reopen; saver unchanged. (3) crash at every FS operation boundary of histories containing snapshot installs (C04 machinery). (4) reads overlapping an install at API granularity: unary read, lazy stream obtained and pulled message by message, install placed before every reader step, both formats. (5) the same overlap at statement granularity under the cooperative scheduler: one reader thread (unary / streamed) and one installer thread (both formats), a scheduling point before every statement of the read path and of recover, all interleavings up to the preemption bound. Non-trivial: all cases; distinct = distinct (case, observed state) renderings", depth))
+	r.Rule(fmt.Sprintf("(1) fidelity: every history of length 0..%d over the 16-entry C03 alphabet x saver format {snapshot,checkpoint} x receiver format x receiver prior state {fresh, other content at a higher index, the same after having saved a snapshot of its own in its own format} x {no write, a write between prepare and save, a write followed by a memtable flush (Sync) between prepare and save}; plus a write applied from inside save after its j-th output write, every j; receiver must equal the saver at prepare time (content, applied, leader index, hash), stay usable and reopen to the same. (2) stop signal at the j-th input read of recover / j-th output write of save, every j: receiver entirely old or entirely new, usable, same after reopen; saver unchanged. (3) crash at every FS operation boundary of histories containing snapshot installs (C04 machinery). (4) reads overlapping an install at API granularity: unary read, lazy stream obtained and pulled message by message, install placed before every reader step, both formats. (5) the same overlap at statement granularity under the cooperative scheduler: one reader thread (unary / streamed) and one installer thread (both formats), a scheduling point before every statement of the read path and of recover, all interleavings up to the preemption bound. Non-trivial: all cases; distinct = distinct (case, observed state) renderings", depth))
 	total := par.SeqCount(len(alpha), depth)
 	types := []string{"s", "c"}
 	// (1)
@@ -488,8 +499,11 @@ func Run(r *evid.Run) {
 		for _, sv := range types {
 			for _, rc := range types {
 				for _, prior := range []string{"fresh", "other", "other+own-snapshot"} {
-					for _, btw := range []bool{false, true} {
-						c := Case{Kind: "fidelity", Log: log, Saver: sv, Receiver: rc, Prior: prior, Between: btw}
+					for btw := 0; btw < 3; btw++ {
+						if btw == 2 && prior != "fresh" {
+							continue // the flush variant concerns the saver only
+						}
+						c := Case{Kind: "fidelity", Log: log, Saver: sv, Receiver: rc, Prior: prior, Between: btw > 0, BetweenFlush: btw == 2}
 						vs, outcome := RunFidelity(c)
 						r.Outcome(fmt.Sprint(log, sv, rc, prior, btw, outcome), true)
 						for _, v := range vs {
